@@ -438,7 +438,9 @@ htp_status_t htp_connp_RES_BODY_CHUNKED_LENGTH(htp_connp_t *connp) {
             }
             // empty chunk length line, lets try to continue
             if (connp->out_chunked_length == -1004) {
-                connp->out_current_consume_offset = connp->out_current_read_offset;
+                // Done with this line: also drop what may have been buffered of it, or
+                // the next line would be taken to begin where this one began.
+                htp_connp_res_clear_buffer(connp);
                 probe_ok = 0;
                 continue;
             }
